@@ -45,16 +45,27 @@ def _opt(name):
     return name in C.cur().opts.get("axioms", ())
 
 
+def _snap(v):
+    """opt snap_trig: concrete sin/cos values become the nearest rational with denominator <= 10^6
+    (|error| < 1e-12; the harness' tolerances absorb it): big-denominator float coefficients make
+    nlsat slow by orders of magnitude (DESIGN probe P14)"""
+    if C.cur().opts.get("snap_trig"):
+        fr = fractions.Fraction(v).limit_denominator(10**6)
+        if abs(fr - fractions.Fraction(v)) < fractions.Fraction(1, 10**12):
+            return SymReal(z3.RealVal(f"{fr.numerator}/{fr.denominator}"))
+    return v
+
+
 def sin(x):
     if not _sym(x):
-        return _m.sin(x)
+        return _snap(_m.sin(x))
     _trig_axioms(x.t)
     return SymReal(_sin(x.t))
 
 
 def cos(x):
     if not _sym(x):
-        return _m.cos(x)
+        return _snap(_m.cos(x))
     _trig_axioms(x.t)
     return SymReal(_cos(x.t))
 
